@@ -2,6 +2,8 @@
 
 package hsmsss
 
+import "github.com/arloliu/go-secs/v2/hsms"
+
 // This file exists only under the "verif" build tag: it exposes the two pure linktest accounting
 // functions to the external deterministic-simulation harness (supporting check of property C19).
 
@@ -13,4 +15,12 @@ func VerifLinktestFailureStep(suppress bool, recvNow, sentAt, inflight int64, fa
 // VerifLinktestDisconnectRecheck exposes linktestDisconnectRecheck.
 func VerifLinktestDisconnectRecheck(suppress bool, inflight, recvNow, sentAt int64) bool {
 	return linktestDisconnectRecheck(suppress, inflight, recvNow, sentAt)
+}
+
+// VerifSetSystemBytes presets the System Bytes counter of a connection built by New (see
+// hsms.VerifSetSystemBytes).
+func VerifSetSystemBytes(c Connection, v uint32) bool {
+	cc, ok := c.(*connection)
+
+	return ok && hsms.VerifSetSystemBytes(cc.Connection, v)
 }
